@@ -1,6 +1,7 @@
 // Native replay / witness driver for `http_serve::streaming_body` (see serve_witness.rs for the role of these files).
 // Scenario line: id|chunk_size|accept_encoding_hex or -|gzip_level|METHOD|op,op,...
 //   ops: W<hex> write, L<hex> write_all, F flush, P poll the body once (waker A), Q poll with a second waker B,
+//        D drain: poll (waker A) until Pending / end / error, at most 20000 frames -> d<hex of all data>:<frames>:<shortest frame>:<P|N|E>
 //        A abort, X drop the writer, R drop the body, G call http_serve::should_gzip on the request headers (-> g0 / g1); `!a/b` after a result = wake-ups of A / B caused by that op
 // Observation: id|status|hdrs|op results, comma separated:
 //   W -> w<k> or we ; L -> lo / le ; F -> fo / fe ; P -> <lower>:<upper|->:<eos>>D<hex> | E | N | P ; A -> a ; X -> x ; R -> r
@@ -76,6 +77,27 @@ fn run_one(line: &str) -> String {
                 "F" => match w.as_mut() {
                     Some(w) => match w.flush() { Ok(()) => "fo".into(), Err(_) => "fe".into() },
                     None => "f-".into(),
+                },
+                "D" => match body.as_mut() {
+                    Some(b) => {
+                        let mut data: Vec<u8> = Vec::new();
+                        let (mut frames, mut shortest, mut term) = (0usize, usize::MAX, 'L');
+                        while frames < 20000 {
+                            match Pin::new(&mut *b).poll_frame(&mut cx) {
+                                Poll::Ready(Some(Ok(fr))) => {
+                                    let d = fr.into_data().unwrap();
+                                    frames += 1;
+                                    shortest = shortest.min(d.len());
+                                    data.extend_from_slice(&d);
+                                }
+                                Poll::Ready(Some(Err(_))) => { term = 'E'; break; }
+                                Poll::Ready(None) => { term = 'N'; break; }
+                                Poll::Pending => { term = 'P'; break; }
+                            }
+                        }
+                        format!("d{}:{}:{}:{}", hex(&data), frames, if frames == 0 { 0 } else { shortest }, term)
+                    }
+                    None => "d-".into(),
                 },
                 "G" => format!("g{}", if http_serve::should_gzip(req.headers()) { 1 } else { 0 }),
                 "A" => { if let Some(w) = w.as_mut() { w.abort("scripted abort".into()); } "a".into() }
